@@ -151,6 +151,19 @@ def vp_checks(tier):
                     out.append(_f("vp/symmetry", dict(a=a, b=b, cost=q, tensor_cost=tc), v, d(b, a, q, tc)))
                 if a == b and q != math.inf and abs(v) > 1e-6:
                     out.append(_f("vp/identity", dict(a=a, cost=q, tensor_cost=tc), 0.0, v))
+    # spike times as INTEGER step indices (torch.nonzero of a raster) with a fractional cost
+    ivecs = [()] + [tuple(c) for r in (1, 2) for c in itertools.combinations((1, 2, 4, 7), r)]
+    for a, b in itertools.product(ivecs, repeat=2):
+        for q in (0.3, 0.5):
+            for tc in (False, True):
+                cases += 1
+                try:
+                    v = inferno.victor_purpura_pair_dist(torch.tensor(a, dtype=torch.int64), torch.tensor(b, dtype=torch.int64), torch.tensor([q]) if tc else q)[0].item()
+                except Exception as e:
+                    out.append(_f("vp/integer_times_exception", dict(a=a, b=b, cost=q, tensor_cost=tc), "distance", f"{type(e).__name__}: {e}"))
+                    continue
+                if abs(v - vp_ref(a, b, q)) > 1e-4 and not any(x["what"].endswith("vp/integer_times_reference") for x in out):
+                    out.append(_f("vp/integer_times_reference", dict(a=a, b=b, cost=q, tensor_cost=tc), vp_ref(a, b, q), v))
     rnd = random.Random(0)
     for _ in range(150 if tier == "quick" else 1500):
         a, b, c_ = (rnd.choice(vecs) for _ in range(3))
